@@ -236,7 +236,14 @@ def handle (d : D) (line : String) : IO D := do
     | _, _, _ => mismatch d "bad N line"
   | "ST" :: k :: rest =>
     let some k := k.toNat? | mismatch d "bad ST line"
-    match Codec.run Codec.vt rest with
+    let prevLines : List (List Line) := match getInst d k with
+      | some i => [i.st.terminal.buffer.lines, i.st.terminal.otherBuffer.lines]
+      | none => []
+    let prevLines := match d.pending with
+      | .new _ _ _ _ => []
+      | .dumpTo _ _ _ => []
+      | _ => prevLines
+    match Codec.run (Codec.vt prevLines) rest with
     | none => mismatch d s!"unparsable state (geometry broken?): {(line.take 200).toString}"
     | some st =>
       match d.pending with
@@ -312,9 +319,13 @@ def handle (d : D) (line : String) : IO D := do
     let v := inst.st
     let t := v.terminal
     let b (x : Bool) : String := if x then "1" else "0"
+    let nl := v.lines.length
+    -- the record carries the last `rest.length - 8` lines (all of them in uncompressed traces)
+    let shown := rest.length - 8
     let expect : List String :=
       [toString t.cols, toString t.rows, toString t.cursor.col, toString t.cursor.row, b t.cursor.visible,
-       b v.cursorKeyAppMode, toString v.view.length, toString v.lines.length] ++ v.lines.map lineApiTok
+       b v.cursorKeyAppMode, toString v.view.length, toString nl]
+        ++ (v.lines.drop (nl - shown)).map lineApiTok
     if expect ≠ rest then mismatch d s!"public API disagrees with private state (size/cursor/cursor-key mode/lines/pens/wrap marks)"
     else pure d
   | "APIERR" :: rest => do
@@ -373,7 +384,27 @@ def handle (d : D) (line : String) : IO D := do
         pure { d with specfails := d.specfails + 1 }
       else pure d
     | _ => pure d
-  | "CHUNKSRES" :: _ => pure d
+  | "CHUNKSRES" :: k :: rest =>
+    let some k := k.toNat? | mismatch d "bad CHUNKSRES"
+    let some inst := getInst d k | mismatch d "CHUNKSRES for unknown instance"
+    let lastTs := (d.lastOp.splitOn " ").filter (· ≠ "")
+    let row := (lastTs[2]?.bind String.toNat?).getD 0
+    match rest with
+    | "OK" :: n :: lens =>
+      let impl := lens.filterMap String.toNat?
+      match inst.st.view[row]? with
+      | none => mismatch d "Line::chunks: impl=ok model=row-out-of-range"
+      | some l =>
+        let m := (l.chunks fun c1 c2 => c1.pen ≠ c2.pen).map List.length
+        if n.toNat? ≠ some m.length ∨ m ≠ impl then mismatch d s!"Line::chunks model={m} impl={impl}" else pure d
+    | "PANIC" :: _ =>
+      let d := { d with panicsImpl := d.panicsImpl + 1 }
+      let d ← (if (inst.st.view[row]?).isSome then mismatch d "Line::chunks: impl=PANIC model=ok" else pure d)
+      if d.prop == "C01" then do
+        let d ← report d "SPECFAIL" "what=panic-in-chunks"
+        pure { d with specfails := d.specfails + 1 }
+      else pure d
+    | _ => pure d
   | ["TCNEW", k, cols, rows, lim] =>
     match k.toNat?, cols.toNat?, rows.toNat? with
     | some k, some cols, some rows =>
